@@ -1883,8 +1883,10 @@ class ContractionTree:
         tree.already_optimized.setdefault(minimize, set())
         already_optimized = tree.already_optimized[minimize]
 
+        # one generator for both the candidate selection and the subtree search
+        search_rng = get_rng(seed)
         if select == "random":
-            rng = get_rng(seed)
+            rng = search_rng
         else:
             if select == "max":
                 i = 0
@@ -1913,7 +1915,10 @@ class ContractionTree:
 
                 # get a subtree to possibly reconfigure
                 sub_leaves, sub_branches = tree.get_subtree(
-                    sub_root, size=subtree_size, search=subtree_search
+                    sub_root,
+                    size=subtree_size,
+                    search=subtree_search,
+                    seed=search_rng,
                 )
 
                 sub_leaves = frozenset(sub_leaves)
